@@ -2,3 +2,5 @@ import Pytreesmodel.Tree
 import Pytreesmodel.Inv
 import Pytreesmodel.TickInv
 import Pytreesmodel.Main
+import Pytreesmodel.Names
+import Pytreesmodel.Dedup
